@@ -12,6 +12,40 @@ func init() { gens["C09"] = genC09 }
 func genC09(tier string, r *rng, emit func(string)) {
 	thorough := tier == "thorough"
 	genCLin(emit)
+	// the dispatching Dot (matrix.vector, vector.matrix, matrix.matrix) and products given BOTH a reuse
+	// and an incr tensor, on contiguous and lazily transposed operands
+	for _, dt := range []string{"f64", "f32"} {
+		for _, ta := range []string{"", ";T:0:1,0"} {
+			sa := "2,3"
+			if ta != "" {
+				sa = "3,2"
+			}
+			for _, mode := range []string{"safe", "reuse", "incr", "both"} {
+				m := func(resShape string, next int) (string, string) {
+					switch mode {
+					case "reuse":
+						return fmt.Sprintf(";new:rm:%s:50", resShape), fmt.Sprintf("reuse.%d", next)
+					case "incr":
+						return fmt.Sprintf(";new:rm:%s:50", resShape), fmt.Sprintf("incr.%d", next)
+					case "both":
+						return fmt.Sprintf(";new:rm:%s:50;new:rm:%s:70", resShape, resShape), fmt.Sprintf("both.%d.%d", next, next+1)
+					}
+					return "", "safe"
+				}
+				// matrix . matrix
+				extra, ms := m("2,2", 2)
+				emit(fmt.Sprintf("prog %s new:rm:%s:1;new:rm:3,2:2%s%s;dot:0:1:%s", dt, sa, ta, extra, ms))
+				emit(fmt.Sprintf("prog %s new:rm:%s:1;new:rm:3,2:2%s%s;lin:matmul:0:1:%s", dt, sa, ta, extra, ms))
+				// matrix . vector
+				extra, ms = m("2", 2)
+				emit(fmt.Sprintf("prog %s new:rm:%s:1;new:rm:3:2%s%s;dot:0:1:%s", dt, sa, ta, extra, ms))
+				emit(fmt.Sprintf("prog %s new:rm:%s:1;new:rm:3:2%s%s;lin:matvec:0:1:%s", dt, sa, ta, extra, ms))
+				// vector . matrix (tensor 0 is the matrix (2,3) logically; the vector has 2 entries)
+				extra, ms = m("3", 2)
+				emit(fmt.Sprintf("prog %s new:rm:%s:1;new:rm:2:2%s%s;dot:1:0:%s", dt, sa, ta, extra, ms))
+			}
+		}
+	}
 	n := 7000
 	if thorough {
 		n = 100000
